@@ -165,6 +165,8 @@ func (s *Summary) SortReports() {
 			cmp.Compare(a.Problem.Reporter, b.Problem.Reporter),
 			cmp.Compare(a.Problem.Summary, b.Problem.Summary),
 			cmp.Compare(a.Problem.Details, b.Problem.Details),
+			cmp.Compare(a.Rule.Lines.First, b.Rule.Lines.First),
+			cmp.Compare(a.Rule.Name(), b.Rule.Name()),
 			cmpDiagnostics(a.Problem.Diagnostics, b.Problem.Diagnostics),
 		)
 	})
